@@ -241,7 +241,11 @@ def stepLine1 (s : DSt) (line : String) : DSt × String :=
         | none => (s, "bad-op")
         | some a =>
           let x := httpStep s.conf s.reg m path a now
-          withQ { s with reg := x.1 } now s!"status={x.2}"
+          -- `/ping` answers the two bytes "OK" (`pingBody`), `/info` the document {"version": …} (`infoKeys`)
+          let body := if m = "GET" && path = "/ping" && x.2 = 200 then " body=" ++ hex pingBody
+                      else if m = "GET" && path = "/info" && x.2 = 200 then " body=" ++ ",".intercalate infoKeys
+                      else ""
+          withQ { s with reg := x.1 } now (s!"status={x.2}" ++ body)
       | "stream" :: p :: bytes :: dec =>
         match p.toNat?, unhex bytes with
         | some p, some bs =>
